@@ -292,6 +292,7 @@ PROPS = {
             "Xet.Recon.C17_trim",
             "Xet.Recon.C17_get_one_term",
             "Xet.Recon.C17_seq_reported_edge",
+            "Xet.Recon.C17_fetch_sharing_needs_fetch_range_key",
         ],
         "suites": ["reconstruct"],
         "level_text": "Theorems for every well-formed plan (any number of terms, repeated xorbs, any fetch ranges containing their terms, "
